@@ -1,5 +1,6 @@
 import GeoVerif.Driver.Concat
 import GeoVerif.Driver.Geom
+import GeoVerif.Driver.Merge
 open Lean GeoVerif.Driver
 
 structure DSt where
@@ -13,6 +14,7 @@ def stepLine (st : DSt) (line : String) : DSt × String :=
     match jstr j "m" with
     | "concat" => let (s, o) := ConcatD.handle st.concat j; ({ st with concat := s }, o.compress)
     | "geom" => let (s, o) := GeomD.handle st.geom j; ({ st with geom := s }, o.compress)
+    | "merge" => (st, (MergeD.handle j).compress)
     | _ => (st, "\"bad-model\"")
 
 partial def loop (h : IO.FS.Stream) (out : IO.FS.Stream) (st : DSt) : IO Unit := do
